@@ -64,7 +64,7 @@ ANCHORS = ["glue.core.subset:RoiSubsetStateNd.to_mask", "glue.core.subset:SliceS
 VIEW_KINDS = list(common.VIEW_KINDS)        # generator kinds
 ATTR_KINDS = ["stored", "int", "categorical", "derived", "linked", "pixel", "world", "dask"]
 COMPOSITE_KINDS = ["and", "or", "xor", "not", "multior"]
-N_BLOCKS = {"quick": {"data": 300, "indexed": 200, "slices": 30}, "thorough": {"data": 4000, "indexed": 2500, "slices": 400}}
+N_BLOCKS = {"quick": {"data": 300, "indexed": 200, "slices": 30, "order": 300, "members": 120}, "thorough": {"data": 4000, "indexed": 2500, "slices": 400, "order": 4000, "members": 1500}}
 
 
 # ---------------------------------------------------------------- views
@@ -957,6 +957,262 @@ def run_indexed_block(ctx, rng, tier):
     IndexedBlock(ctx, rng, W).run()
 
 
+# ---------------------------------------------------------------- view first, full result afterwards
+import random as _random
+
+
+def run_order_block(ctx, rng, tier):
+    """Reverse order of operations on fresh objects: values, codes, masks and statistics are requested under a view
+    BEFORE anything has read the full array of the dataset; the full result is read afterwards and full[view] must
+    equal what the view returned earlier.  Leaf descriptions and views are prepared on a twin world built from the
+    same seed, so nothing has touched the dataset under observation."""
+    seed = rng.getrandbits(48)
+    shape = rng.choice([(rng.randint(3, 9),), (rng.randint(3, 9),), (rng.randint(2, 4), rng.randint(2, 4))])
+    W0 = L.make_world(_random.Random(seed), shape=shape)          # scratch twin: may be read freely
+    kinds = [k for k in ("category", "catroi", "ineq_cat", "cat2d", "catmulti", "ineq", "range", "roi2d", "mask_attr",
+                         "ineq2", "element") if k in L.leaf_kinds(W0)]
+    descs = [L.rand_leaf(rng, W0, k) for k in rng.sample(kinds, min(5, len(kinds)))]
+    views = []
+    for kind in ("bare_slice", "slice_tuple_full", "int_slice_mix", "index_arrays", "bool_mask", "all_int"):
+        if kind == "bare_slice" and len(shape) > 1:
+            kind = "slice_tuple_short"
+        v = common.make_view(rng, shape, kind)
+        views.append(v)
+    # short views that are likely not to contain every category
+    views.append(tuple(slice(a, a + rng.randint(1, 2)) for a in (rng.randrange(n) for n in shape)))
+    views.append(tuple(np.array([rng.randrange(n)] * 2) for n in shape))
+    view = rng.choice(views)
+    W = L.make_world(_random.Random(seed), shape=shape)           # the fresh dataset under observation
+    d = W.d
+    B = DataBlock(ctx, W)
+    vclass = classify_view(view, W.shape)
+    ctx.count("order_blocks")
+    ctx.count("order_blocks:view:" + vclass)
+    wit = {"world": L.describe_world(W), "view": common.describe_view(view)}
+    names = [n for n in W.atts if W.kinds[n] in ("categorical", "stored", "int", "derived", "world", "linked", "dask")]
+    rng.shuffle(names)
+    names = [n for n in names if W.kinds[n] == "categorical"] + [n for n in names if W.kinds[n] != "categorical"][:5]
+    first = {}
+    # ---- everything under the view first
+    for n in names:
+        try:
+            got = d[W.atts[n], view]
+            first[("values", n)] = ("ok", np.array(np.asarray(got)), np.array(got.codes) if hasattr(got, "codes") and
+                                    np.ndim(got) > 0 else None)
+        except Exception as e:
+            first[("values", n)] = ("exc", e, None)
+    for i, desc in enumerate(descs):
+        try:
+            first[("mask", i)] = ("ok", np.array(np.asarray(d.get_mask(L.build_leaf(W, desc), view=view))), None)
+        except Exception as e:
+            first[("mask", i)] = ("exc", e, None)
+    stats = []
+    nonempty = np.size(np.empty(W.shape)[view]) > 0
+    if nonempty and vclass not in ("index_arrays", "bool_mask"):
+        for n in [x for x in names if W.kinds[x] in ("categorical", "stored", "int")][:4]:
+            stat = rng.choice(["minimum", "maximum", "sum", "mean"])
+            try:
+                first[("stat", n, stat)] = ("ok", d.compute_statistic(stat, W.atts[n], view=view), None)
+            except Exception as e:
+                first[("stat", n, stat)] = ("exc", e, None)
+            stats.append((n, stat))
+    # ---- now the full results
+    for n in names:
+        st, got, codes = first[("values", n)]
+        akind = W.kinds[n]
+        full = d[W.atts[n]]
+        exp = np.asarray(full)[view]
+        ctx.count("comparisons")
+        ctx.count("view_before_full:values:" + akind)
+        if akind == "categorical":
+            present = set(np.asarray(exp).ravel().tolist())
+            if len(present) < len(set(np.asarray(full).ravel().tolist())):
+                ctx.count("view_before_full:categorical_view_missing_a_category")
+        ctx.evaluation(["view_before_full", "values", akind, vclass, list(W.shape), common.describe_view(view)],
+                       nontrivial(view, exp))
+        sig = None
+        if st == "exc":
+            sig = {"kind": "exception", "exc": type(got).__name__, "where": glue_frame(got)}
+        elif got.shape != np.shape(exp) or not common.same_array(got, exp, rtol=1e-12 if akind in COMPUTED_KINDS else 0.0,
+                                                                 atol=1e-12 if akind in COMPUTED_KINDS else 0.0):
+            sig = {"kind": "value_mismatch", "what": "values"}
+        elif codes is not None and hasattr(full, "codes"):
+            ecodes = np.asarray(full.codes)[view]
+            ctx.count("view_before_full:codes")
+            if codes.shape != ecodes.shape or not common.same_array(codes, ecodes):
+                sig = {"kind": "value_mismatch", "what": "codes"}
+                wit = dict(wit, got_codes=codes, expected_codes=ecodes)
+        if sig is not None:
+            root = B.values_root(n, view, ("o", n))[0]
+            if root is not None:
+                sig = dict(root, via_order="view_before_full")
+            else:
+                sig.update({"target": "view_before_full:values", "attr_kind": akind, "view_kind": vclass})
+            ctx.violation(sig, dict(wit, attribute=n, got=repr(got)[:300], expected=exp))
+    for i, desc in enumerate(descs):
+        st, got, _ = first[("mask", i)]
+        try:
+            full = np.array(np.asarray(d.get_mask(L.build_leaf(W, desc))), dtype=bool)
+        except Exception:
+            ctx.count("excluded:full_mask_failed:%s" % desc["k"])
+            continue
+        exp = full[view]
+        ctx.count("comparisons")
+        ctx.count("view_before_full:mask:" + desc["k"])
+        ctx.evaluation(["view_before_full", "mask", desc["k"], vclass, list(W.shape), common.describe_view(view)],
+                       nontrivial(view, exp))
+        sig = None
+        if st == "exc":
+            sig = {"kind": "exception", "exc": type(got).__name__, "where": glue_frame(got)}
+        elif got.shape != exp.shape or not np.array_equal(got.astype(bool), exp):
+            sig = {"kind": "value_mismatch"}
+        if sig is not None:
+            root = B.leaf_root(desc, view, ("o", i))[0]
+            if root is not None:
+                sig = dict(root, via_order="view_before_full")
+            else:
+                sig.update({"target": "view_before_full:mask", "state_kind": desc["k"], "view_kind": vclass})
+                if leaf_variant(desc):
+                    sig["state_variant"] = leaf_variant(desc)
+            ctx.violation(sig, dict(wit, leaf=desc, got=repr(got)[:300], expected=exp))
+    for n, stat in stats:
+        st, got, _ = first[("stat", n, stat)]
+        full = d[W.atts[n]]
+        vals = np.asarray(full.codes if hasattr(full, "codes") else full)[view]
+        vals = np.array(vals) if np.ndim(vals) else np.array([vals])       # same dtype as the component (float32 sums)
+        m = Data(label="materialised", x=vals)
+        try:
+            exp = m.compute_statistic(stat, m.id["x"])
+        except Exception:
+            ctx.count("excluded:reference_failed:statistic")
+            continue
+        ctx.count("comparisons")
+        ctx.count("view_before_full:statistic:" + W.kinds[n])
+        ctx.evaluation(["view_before_full", "statistic", W.kinds[n], stat, vclass, list(W.shape)], True)
+        sig = None
+        if st == "exc":
+            sig = {"kind": "exception", "exc": type(got).__name__, "where": glue_frame(got)}
+        elif not common.same_array(np.asarray(got), np.asarray(exp), rtol=1e-5 if vals.dtype == np.float32 else 1e-9,
+                                   atol=1e-12):
+            sig = {"kind": "value_mismatch"}
+        if sig is not None:
+            sig.update({"target": "view_before_full:statistic", "attr_kind": W.kinds[n], "view_kind": vclass,
+                        "statistic": stat})
+            ctx.violation(sig, dict(wit, attribute=n, got=repr(got)[:200], expected=repr(exp)[:200]))
+
+
+# ---------------------------------------------------------------- a member read after the composite that contains it
+MEMBER_KINDS = ["ineq", "ineq2", "ineq_cat", "category", "element", "catroi", "ineq_rev", "and", "or", "not"]
+COMPOSITES = ["multior", "multior", "multior", "or", "and", "xor", "not", "or_chain", "multior_nested"]
+
+
+def run_member_block(ctx, rng, tier):
+    """History with memoised members: a composite whose FIRST member is of a memoising kind is evaluated under a hashable
+    view before that member has been evaluated; then the member alone is asked for the same view (same call forms as the
+    composite uses) and must give member_full[view], the full mask coming from a fresh twin."""
+    W = L.make_world(rng)
+    d = W.d
+    B = DataBlock(ctx, W)
+    ctx.count("member_blocks")
+    for _ in range(10):
+        mk = rng.choice(MEMBER_KINDS)
+        if mk in ("ineq_cat", "category", "catroi") and "c" not in W.atts:
+            continue
+        if mk in ("and", "or", "not"):
+            parts = [L.rand_leaf(rng, W, rng.choice(["ineq", "range", "category", "mask"]), edge=False) for _ in range(2)]
+
+            def make_member(parts=parts, mk=mk):
+                a, b = L.build_leaf(W, parts[0]), L.build_leaf(W, parts[1])
+                return {"and": lambda: AndState(a, b), "or": lambda: OrState(a, b), "not": lambda: InvertState(a)}[mk]()
+            mdesc = {"k": mk, "parts": parts}
+        else:
+            mdesc = L.rand_leaf(rng, W, mk, edge=False)
+            make_member = (lambda mdesc=mdesc: L.build_leaf(W, mdesc))
+        others = [L.rand_leaf(rng, W, rng.choice(["ineq", "range", "mask", "slice", "category", "roi2d", "element"]), edge=False)
+                  for _ in range(rng.randint(1, 4))]
+        vk = rng.choice(["none", "none", "ellipsis", "slice_tuple_full", "slice_tuple_short", "int_slice_mix", "all_int",
+                         "bare_slice"])
+        if vk == "bare_slice" and W.nd > 1:
+            vk = "slice_tuple_short"
+        view = common.make_view(rng, W.shape, vk)
+        try:
+            full = np.array(np.asarray(d.get_mask(make_member())), dtype=bool)       # fresh twin, no view
+        except Exception:
+            ctx.count("excluded:full_mask_failed:%s" % mk)
+            continue
+        member = make_member()
+        rest = [L.build_leaf(W, o) for o in others]
+        ck = rng.choice(COMPOSITES)
+        try:
+            if ck == "multior":
+                comp, held = MultiOrState([member] + rest), member
+            elif ck == "multior_nested":
+                inner = MultiOrState([member] + rest[:1])
+                comp, held = MultiOrState([inner] + rest), member
+            elif ck == "or_chain":
+                comp = member
+                for o in rest:
+                    comp = comp | o
+                held = comp
+                for _ in rest:
+                    held = held.state1        # each | copies its left operand: the member's copy sits len(rest) levels down
+            elif ck == "not":
+                comp = InvertState(member)
+                held = comp.state1
+            else:
+                comp = {"or": OrState, "and": AndState, "xor": XorState}[ck](member, rest[0])
+                held = comp.state1
+        except Exception:
+            continue
+        # 1. the composite first (through the public entry points), the member has never been evaluated
+        try:
+            if rng.random() < 0.5:
+                d.get_mask(comp, view=view)
+            else:
+                sub = Subset(d)
+                sub.subset_state = comp
+                sub.to_mask(view=view)
+            if rng.random() < 0.5:
+                d.get_mask(comp, view=view)
+        except Exception:
+            ctx.count("excluded:composite_failed_under_view:%s" % ck)
+            continue
+        # 2. the member the composite holds, alone, under the same view, in the call forms composites use
+        exp = full if view is None else full[view]
+        vclass = classify_view(view, W.shape)
+        for form, call in (("get_mask", lambda: d.get_mask(held, view=view)), ("to_mask_kw", lambda: held.to_mask(d, view=view)),
+                           ("to_mask_pos", lambda: held.to_mask(d, view))):
+            ctx.count("comparisons")
+            ctx.count("member_after_composite")
+            ctx.count("member_after_composite:composite:" + ck)
+            ctx.count("member_after_composite:member:" + mk)
+            ctx.count("member_after_composite:view:" + vclass)
+            ctx.evaluation(["member_after_composite", ck, mk, vclass, form, list(W.shape), common.describe_view(view)],
+                           nontrivial(view, exp) or (view is None and bool(exp.any() and not exp.all())))
+            try:
+                got = np.asarray(call())
+                bad = got.shape != np.shape(exp) or not np.array_equal(got.astype(bool), exp)
+                res = {"kind": "value_mismatch", "got": got, "expected": exp} if bad else None
+            except Exception as e:
+                res = {"kind": "exception", "exc": type(e).__name__, "where": glue_frame(e), "error": repr(e)[:200]}
+            if res is None:
+                continue
+            root = None
+            for pd in (mdesc["parts"] if mk in ("and", "or", "not") else [mdesc]):
+                root = B.leaf_root(pd, view, ("m", id(member)))[0]         # does a part fail on a fresh object as well?
+                if root is not None:
+                    break
+            if root is not None:
+                sig = dict(root, via_history="member_after_composite")
+            else:
+                sig = {"target": "mask", "history": "member_after_composite", "composite": ck, "member_kind": mk,
+                       "view_kind": vclass, "call": form}
+                sig.update(failure_keys(res))
+            ctx.violation(sig, {"world": L.describe_world(W), "member": mdesc, "others": others, "composite": ck,
+                                "view": common.describe_view(view), "failure": res})
+            break
+
+
 # ---------------------------------------------------------------- driver interface
 def cases(tier, seed):
     n = N_BLOCKS[tier]
@@ -967,6 +1223,10 @@ def cases(tier, seed):
             yield ["indexed", i]
         if i < n["slices"]:
             yield ["slices", i]
+        if i < n["order"]:
+            yield ["order", i]
+        if i < n["members"]:
+            yield ["members", i]
 
 
 def run_case(ctx, case):
@@ -975,6 +1235,10 @@ def run_case(ctx, case):
         run_data_block(ctx, ctx.rng, ctx.tier, case[1])
     elif case[0] == "indexed":
         run_indexed_block(ctx, ctx.rng, ctx.tier)
+    elif case[0] == "order":
+        run_order_block(ctx, ctx.rng, ctx.tier)
+    elif case[0] == "members":
+        run_member_block(ctx, ctx.rng, ctx.tier)
     else:
         run_slice_block(ctx, ctx.rng, ctx.tier, case[1])
 
@@ -1006,6 +1270,14 @@ def floors(counters, tier):
                     ("masks_on_aligned_dataset:mask", 50), ("masks:join_ineq x none", 2), ("indexed_blocks:nested", 5),
                     ("indexed_blocks:index_style:numpy_int", 5),
                     ("indexed_indices_reassigned_back_to_the_first", 10), ("indexed:read_inside_change_message", 10)):
+        if c(k, 0) < need:
+            out.append("fewer than %d %s" % (need, k))
+    for k, need in (("view_before_full:values:categorical", 100), ("view_before_full:codes", 50),
+                    ("view_before_full:categorical_view_missing_a_category", 50), ("view_before_full:mask:category", 20),
+                    ("view_before_full:statistic:categorical", 20), ("member_after_composite", 500),
+                    ("member_after_composite:composite:multior", 100), ("member_after_composite:member:ineq", 30),
+                    ("member_after_composite:member:category", 20), ("member_after_composite:member:element", 20),
+                    ("member_after_composite:view:none", 50), ("member_after_composite:view:slices_full", 30)):
         if c(k, 0) < need:
             out.append("fewer than %d %s" % (need, k))
     for s in SELECTION_KINDS_ALWAYS + SELECTION_KINDS_SOMETIMES:
